@@ -70,6 +70,10 @@ def values(ctx):
     out += [s for s in gen.STRS if s != "\ud800"] + ["0", "007", "1e3", "١٢٣", "１２", " 42 ", "4_2", "0b11", "True", "None"]
     out += gen.BYTESES + [b"0", b"007", b" 42 ", b"12", b"-5"]
     out += [None]
+    out += ["é" * 127, "é" * 128, "é" * 255, "€" * 85, "€" * 86, "x" * 65535, "x" * 65536, "\U0001f600" * 64,
+            b"b" * 65535, b"b" * 65536, b"\xff" * 255, b"\xff" * 256, b"\x80" * 300]
+    out += [list(range(255)), list(range(256)), {str(i): i for i in range(256)}, ["é" * 130, b"\xff" * 300],
+            {"k" * 255: "v" * 256}, [[], {}, [[]], ""], [0, -1, 255, 256, 65535, 65536, 2**31, -2**31 - 1]]
     nested = [[1, "a"], ["123", b"45", 1.5, True], {"k": [1, 2]}, {"1": "2"}, {"n": {"m": ["x", {"y": -1}]}}, [],
               {}, [[]], [[["deep", 2**70]]], {"f": 0.5, "b": b"\x00"}, [-1, -2**40], ["é", "\n"], {"é": "\\"},
               (1, 2), {1: 2}, {b"k": 1}]
